@@ -340,6 +340,58 @@ def check_one(arg):
     return fails
 
 
+BLOCK_IN_LABEL_DO = ("program pDo\n  real :: x\n  integer :: i\n  do 10 i = 1, 3\n    block\n      integer :: j\n      j = i\n"
+                     "    end block\n10 x = cos(1.0)\nend program pDo\n")
+
+
+def check_block_in_label_do(_):
+    """recorded finding, kept apart: a BLOCK inside a labelled DO that ends on an action statement"""
+    import fp
+    fp._current_std[0] = None
+    o = fp.parse(BLOCK_IN_LABEL_DO, std="f2008")
+    if o.kind != "tree":
+        fp.SYMBOL_TABLES.clear()
+        return []
+    got = real_tables()
+    fp.SYMBOL_TABLES.clear()
+    shape = [(t[0], [k[0] for k in t[3]]) for t in got]
+    if shape != [("pdo", ["block"])]:
+        return [("duplicate_block_table_after_backtracked_label_do", "table tree %r, scope tree [('pdo', ['block'])]" % (shape,),
+                 dict(std="f2008", source=BLOCK_IN_LABEL_DO))]
+    return []
+
+
+def check_second(arg):
+    """two programs (same unit names) parsed one after the other, each after its own ParserFactory().create(std) and with
+    no explicit SYMBOL_TABLES.clear(): the tables after the second parse are the scope tree of the SECOND program"""
+    std, seed = arg
+    import fp
+    from fparser.two.parser import ParserFactory
+    u1, u2 = Gen(seed, std).program(), Gen(seed + 1, std).program()
+    s1, s2 = render(u1), render(u2)
+    rep = dict(std=std, seed=seed, first=s1, source=s2, second_parse=True)
+    fails = []
+    try:
+        for src in (s1, s2):
+            p = ParserFactory().create(std=std)
+            try:
+                p(fp.reader(src))
+            except fp.utils.FortranSyntaxError:
+                return []
+        got = real_tables()
+    finally:
+        fp._current_std[0] = None
+        fp.SYMBOL_TABLES.clear()
+    exp = expected_tables(u2)
+
+    def strip(t, level):
+        return (t[0],) + tuple(t[1:level]) + ([strip(k, level) for k in t[3]],)
+    if [strip(t, 2) for t in got] != [strip(t, 2) for t in exp]:
+        fails.append(("second_parse_tables_differ", "after create(); parse(P1); create(); parse(P2) the tables are %r, the scope tree of P2 is %r"
+                      % ([strip(t, 1) for t in got][:4], [strip(t, 1) for t in exp][:4]), rep))
+    return fails
+
+
 def run(ctx):
     proof = common.leg_p(ctx, TARGETS)
     import engine_corr
@@ -358,8 +410,17 @@ def run(ctx):
             failures.append(("harness_error", r[:300], dict(job=list(job))))
         else:
             failures += [(s, d, dict(rep, job=list(job))) for s, d, rep in r]
-    e2e = dict(cases=len(jobs), distinct=len(set(jobs)), failures=failures,
-               rule="generated programs: 0-2 modules (with module procedures), external subprograms, a main program with "
+    sj = [(("f2003", "f2008")[k % 2], ctx.seed * 227 + 2 * k) for k in range(ctx.n(60, 1500))]
+    for job, (st, r) in zip(sj, pool.pmap(check_second, sj, chunksize=10)):
+        if st != "ok":
+            failures.append(("harness_error", r[:300], dict(job=list(job))))
+        else:
+            failures += [(s, d, dict(rep, job=list(job))) for s, d, rep in r]
+    for st, r in pool.pmap(check_block_in_label_do, [0], chunksize=1):
+        failures += r if st == "ok" else [("harness_error", r[:300], {})]
+    e2e = dict(cases=len(jobs) + len(sj) + 1, distinct=len(set(jobs)) + len(sj) + 1, failures=failures, second_parses=len(sj),
+               rule="pairs of programs parsed one after the other, each after its own create(std): the tables are those of the "
+                    "second; generated programs: 0-2 modules (with module procedures), external subprograms, a main program with "
                     "internal subprograms, nested BLOCK constructs (f2008), random type declarations of intrinsic "
                     "names (generic and specific) at chosen levels, USE with ONLY lists importing such names, wildcard "
                     "USE of modules without such names; references name(tag) to intrinsic names before/after/inside "
@@ -376,4 +437,8 @@ def run(ctx):
 
 
 def replay(ctx, data):
+    if data.get("source") == BLOCK_IN_LABEL_DO:
+        return not check_block_in_label_do(0)
+    if data.get("second_parse"):
+        return not check_second(tuple(data["job"]))
     return not check_one(tuple(data["job"]))
